@@ -2,8 +2,7 @@
   Model/Ctor — the eleven constructors of components.py: argument checks, sign normalisation, the
   interpolator that is built, and the `_params` dictionary that is stored (`mkComp`).
 
-  Statement order inside each `__init__` is kept (it decides which exception wins and — for PMux and
-  Rectifier — that the normalised `rs` is overwritten by the raw argument two lines later).
+  Statement order inside each `__init__` is kept (it decides which exception wins).
   Keyword arguments arrive as an association list `String × PV`; an absent key means "use the default".
 -/
 import SysLoss.Model.Warn
@@ -120,7 +119,8 @@ def mkTable (d : List (String × PV α)) (z : String)
   match d.lookup "vi", d.lookup "io", d.lookup z with
   | some vi, some io, some zz =>
     let ios ← ioAxis io
-    if !(strictlyIncreasing ios) then throw (.value "io values must be monotonic increasing")
+    -- `np.all(np.diff(np.abs(idata["io"])) > 0)`
+    if !(strictlyIncreasing (ios.map nabs)) then throw (.value "io values must be monotonic increasing")
     else do
       let rows ← tableRows vi zz ios.length z
       chk rows.flatten
@@ -207,32 +207,32 @@ def mkEff (eff : PV α) : Except Err (Param α) :=
     else if 1 < e then throw (.value "Efficiency must be <= 1.0")
     else pure (Param.const e)
 
-/-- PMux `rs`: `if not list: _params["rs"] = abs(rs)  elif not all numbers: raise`, then
-    `_params["rs"] = rs` — the stored scalar is the RAW argument (the `abs` is overwritten) -/
-def mkRsMux (rsA : PV α) : Except Err (α × Option (List α)) :=
+/-- PMux `rs`: `if not isinstance(rs, list): rs = abs(rs)  elif not all numbers: raise`, then
+    `_params["rs"] = rs`: a scalar is stored in magnitude, a list as given (its entries are used through
+    `abs`).  Returns the scalar resistance, the list form, and the stored value. -/
+def mkRsMux (rsA : PV α) : Except Err (α × Option (List α) × PV α) :=
   match rsA with
   | .list l =>
-    if l.all PV.isNumber then pure ((0 : α), some (l.filterMap PV.num?))
+    if l.all PV.isNumber then pure ((0 : α), some (l.filterMap PV.num?), rsA)
     else throw (.value "rs values must be numbers!")
   | x => do
-    let _ ← absArg "rs" x
-    let v ← numArg "rs" x
-    pure (v, none)
+    let v ← absArg "rs" x
+    pure (v, none, .float v)
 
 /-- MOSFET Rectifier `rs`: as PMux, with an explicit number test for the scalar form -/
-def mkRsRect (rsA : PV α) : Except Err (α × Option (List α)) :=
+def mkRsRect (rsA : PV α) : Except Err (α × Option (List α) × PV α) :=
   match rsA with
   | .list l =>
-    if l.all PV.isNumber then pure ((0 : α), some (l.filterMap PV.num?))
+    if l.all PV.isNumber then pure ((0 : α), some (l.filterMap PV.num?), rsA)
     else throw (.value "rs values must be numbers!")
   | x =>
     if !x.isNumber then throw (.value "rs values must be numbers!")
     else do
-      let v ← numArg "rs" x
-      pure (v, none)
+      let v ← absArg "rs" x
+      pure (v, none, .float v)
 
 /-- LinReg: which argument carries the ground current (`iq` is the deprecated spelling; a dict given as
-    `iq` has its `"iq"` entry renamed to `"ig"`, `KeyError` when there is none) -/
+    `iq` has its `"iq"` entry, if any, renamed to `"ig"`) -/
 def linregIgc (a : Args α) : Except Err (PV α) :=
   let iqA := arg a "iq" (.float 0)
   if nonZeroArg iqA then
@@ -240,7 +240,7 @@ def linregIgc (a : Args α) : Except Err (PV α) :=
     | .dict d =>
       match d.lookup "iq" with
       | some z => pure (.dict ((d.filter fun kv => kv.1 != "iq") ++ [("ig", z)]))
-      | none => throw (.key "iq")
+      | none => pure iqA
     | x => pure x
   else pure (arg a "ig" (.float 0))
 
@@ -344,8 +344,8 @@ def mkComp (kind : Kind) (name : String) (a : Args α) : Except Err (Comp α) :=
     let iis ← absArg "iis" (arg a "iis" zero)
     let rt ← absArg "rt" (arg a "rt" zero)
     let lim ← checkLimits limArg
-    pure { name, kind, rs := rr.1, rsList := rr.2, par, iis, rt, limits := lim,
-           params := [("name", .str name), ("rs", rsA), ("ig", stripDiag ig),
+    pure { name, kind, rs := rr.1, rsList := rr.2.1, par, iis, rt, limits := lim,
+           params := [("name", .str name), ("rs", rr.2.2), ("ig", stripDiag ig),
                       ("iis", .float iis), ("rt", .float rt)] }
   | .rectifier =>
     let vd := arg a "vdrop" zero
@@ -364,8 +364,8 @@ def mkComp (kind : Kind) (name : String) (a : Args α) : Except Err (Comp α) :=
       let iq ← absArg "iq" (arg a "iq" zero)
       let rt ← absArg "rt" (arg a "rt" zero)
       let lim ← checkLimits limArg
-      pure { name, kind, rs := rr.1, rsList := rr.2, par, iq, rt, diode := false, limits := lim,
-             params := [("name", .str name), ("type", .str "mosfet"), ("rs", rsA),
+      pure { name, kind, rs := rr.1, rsList := rr.2.1, par, iq, rt, diode := false, limits := lim,
+             params := [("name", .str name), ("type", .str "mosfet"), ("rs", rr.2.2),
                         ("ig", stripDiag ig), ("iq", .float iq), ("rt", .float rt)] }
 
 end
